@@ -102,7 +102,7 @@ generic per-axis evaluator wherever that one is defined, at every point, in ever
 theorem C15.peraxis_dispatch_agrees (axes : List (Axis K)) (hg : ∀ a ∈ axes, a.Good)
     (v : List Nat → V) (p : List K) :
     perAxisInterpolator axes v p = perAxisInterp axes v p := by
-  unfold perAxisInterpolator
+  unfold perAxisInterpolator allNearest
   split
   · rename_i h
     refine (C15.nearest_paths_agree axes (fun a ha => ⟨hg a ha, ?_⟩) v p).symm
@@ -310,19 +310,38 @@ example : cartesian [[(1 : ℚ), 2], [3, 4, 5]] = [[1, 3], [1, 4], [1, 5], [2, 3
     columns [[(1 : ℚ), 2, 3], [4, 5, 6]] = [[1, 4], [2, 5], [3, 6]] := by
   constructor <;> simp [cartesian, columns]
 
-/-- Nearest-neighbour interpolation works for every value dtype class — floats, complex,
-integers, strings of any width, objects: the node search on `float64` points never raises
-(complete finite table; full statement since the repair of finding C15-F3). -/
-theorem C15.value_dtypes_ok (vk : VKind) : findIndicesOutcome vk = .ok := by
+/-- The cast of the evaluation points in `_find_indices`, with the numeric guard and the
+`casting=` rule EXTRACTED from the source and the hand-written NumPy tables `castSafe`,
+`castSameKind`, `isNumeric`, `castLossless`, `arithmeticOk` (each compared with NumPy on every
+run): whenever `float64` points take the value dtype they stay numeric and keep their value
+exactly, so the node search never raises and never sees rounded points.  (Complete finite
+table; breaks when the guard is dropped — wide strings, finding C15-F3 — or the rule becomes
+`'same_kind'` — float32 / complex64 data, seeded change C15-1.) -/
+theorem C15.point_cast_harmless (vk : VKind)
+    (h : pointsTakeValueDtype castGuardNumeric castingRule vk = true) :
+    arithmeticOk vk = true ∧ castLossless vk = true ∧
+      findIndicesOutcome castGuardNumeric castingRule vk = .ok := by
+  cases vk <;> revert h <;> decide
+
+/-- Consequently the node search on `float64` points succeeds for every value-dtype class. -/
+theorem C15.value_dtypes_ok (vk : VKind) :
+    findIndicesOutcome castGuardNumeric castingRule vk = .ok := by
   cases vk <;> decide
 
-/-- Sensitivity (the code before the repair of C15-F3): without the numeric-dtype guard wide
-string values (`≥ U32`) make `_find_indices` raise, because the points are cast to strings. -/
-theorem C15.wide_string_values_fail_old : findIndicesOutcomeOld .strWide = .typeError := by decide
+/-- Sensitivity of the two previous statements to the extracted constants: without the guard
+wide strings raise (the code before the repair of C15-F3); with `casting='same_kind'` the points
+are cast to single precision for float32 data (lossy). -/
+theorem C15.point_cast_sensitivity :
+    findIndicesOutcome false .safe .strWide = .typeError ∧
+    (pointsTakeValueDtype true .sameKind .float32 = true ∧ castLossless .float32 = false) := by
+  decide
 
 /-- Translator tie: the statement list extracted from `_compute_linear_weights_edge` in the live
-source computes exactly the `linearEdge` every theorem above speaks about (fails to check when
-a constant, a mask, an operator or the order of the assignments in the source changes). -/
+source computes exactly the `linearEdge` every theorem above speaks about.  The statement
+language has no aliasing: every weight must be a fresh array (`1 - ndist`, `np.copy(ndist)`,
+`np.where`), a bare `w = ndist` is rejected by the translator; within that language a changed
+constant, mask, comparison operator, target or index breaks this theorem (a reordering of
+assignments with disjoint masks does not, correctly). -/
 theorem C15.extracted_linear_edge (n i : Nat) (nd : K) :
     runEdge linearProg n i nd = linearEdge n i nd := by
   by_cases h0 : nd < 0 <;> by_cases h1 : 1 < nd
